@@ -411,6 +411,7 @@ static void enumerate(const vr::Shard &sh, vr::Report &r, const vr::Args &args)
       r.violation("harness-internal", "bad-unit", kase, "unit could not be evaluated");
     sh.end();
     r.counters["units"]++;
+    r.sampleEvery(97, "unit " + kase + " => " + (v < 0 ? "not evaluated" : "evaluated (result code " + std::to_string(v) + ")"));
   };
   auto want = [&](const char *f) { return (only.empty() || only == f) && (!pairsPart || std::string(f) == "seg"); };
   if (pairsPart)
